@@ -92,3 +92,17 @@ func (s *Service) VerifHandleNetworkBytes(from peer.ID, raw []byte) (bool, error
 	}
 	return s.handleNetworkMessage(from, msg)
 }
+
+// real round driver mode: the pieces of Service.Start, startable one by one
+func (s *Service) VerifTrackerStart()  { s.tracker.start() }
+func (s *Service) VerifInitiate() error { return s.initiate() }
+
+// VerifHandoff, when set, is called by the finalisation engine right after it handed an action to
+// the voting round handler (calls inserted at check time by worlds/grandpa/prebuild.sh).
+var VerifHandoff func()
+
+func verifHandoff() {
+	if VerifHandoff != nil {
+		VerifHandoff()
+	}
+}
